@@ -11,6 +11,10 @@
 //! `reopen`: all pending waiter futures and all handles are dropped, barrier (the actor leaves its
 //! loop and closes RocksDB), then `Store::new` on the same path.
 //!
+//! `cancel w`: the pending future of waiter `w` is dropped by its owner (as `select!` does with a
+//! losing branch in the synchronizers).  The store actor never learns of it: the model is not told
+//! either, and what the model sends to a cancelled waiter is removed from the expected wakes.
+//!
 //! Compared with the model per burst: the read replies in order and the set of (waiter, value)
 //! woken.  Monitor, independent of the model: a reference map replayed over the same op list.
 use crate::driver::Model;
@@ -32,6 +36,9 @@ pub enum Op {
     Write { h: usize, k: String, v: String },
     Read { h: usize, k: String },
     Notify { h: usize, k: String, w: u64 },
+    /// the owner of pending waiter `w` drops its `notify_read` future (a lost `select!` branch, a
+    /// timeout); the actor is not told and its `send` to that waiter fails silently
+    Cancel { w: u64 },
     Reopen,
     Barrier,
 }
@@ -82,7 +89,7 @@ pub async fn exec_real(path: &str, ops: &[Op]) -> Vec<Burst> {
     let mut handles: Vec<Store> = (0..HANDLES).map(|_| base.clone()).collect();
     drop(base);
     let mut reads: Vec<BoxFut<Result<Option<Vec<u8>>, store::StoreError>>> = Vec::new();
-    let mut waiters: Vec<(u64, BoxFut<Result<Vec<u8>, store::StoreError>>)> = Vec::new();
+    let mut waiters: Vec<(u64, BoxFut<Result<Vec<u8>, String>>)> = Vec::new();
 
     macro_rules! settle {
         () => {{
@@ -107,7 +114,7 @@ pub async fn exec_real(path: &str, ops: &[Op]) -> Vec<Burst> {
                     std::task::Poll::Ready(Ok(v)) => {
                         cur.wakes.insert(w, hex(&v));
                     }
-                    std::task::Poll::Ready(Err(e)) => cur.errors.push(format!("notify_read error {}", e)),
+                    std::task::Poll::Ready(Err(e)) => cur.errors.push(format!("notify_read of waiter {} failed: {}", w, e)),
                     std::task::Poll::Pending => still.push((w, f)),
                 }
             }
@@ -132,13 +139,23 @@ pub async fn exec_real(path: &str, ops: &[Op]) -> Vec<Burst> {
             Op::Notify { h, k, w } => {
                 let mut s = handles[*h % HANDLES].clone();
                 let key = unhex(k);
-                let mut f: BoxFut<_> = Box::pin(async move { s.notify_read(key).await });
+                // `notify_read` `expect`s its oneshot: a dropped sender panics inside the caller's future
+                let mut f: BoxFut<_> = Box::pin(async move {
+                    match futures::FutureExt::catch_unwind(std::panic::AssertUnwindSafe(s.notify_read(key))).await {
+                        Ok(r) => r.map_err(|e| e.to_string()),
+                        Err(p) => {
+                            let msg = p.downcast_ref::<String>().cloned().or_else(|| p.downcast_ref::<&str>().map(|x| x.to_string())).unwrap_or_default();
+                            Err(format!("the caller's notify_read panicked: {}", msg))
+                        }
+                    }
+                });
                 if let std::task::Poll::Ready(_) = futures::poll!(f.as_mut()) {
                     cur.errors.push("notify_read answered before the actor ran".into());
                 } else {
                     waiters.push((*w, f));
                 }
             }
+            Op::Cancel { w } => waiters.retain(|(id, _)| id != w),
             Op::Barrier => settle!(),
             Op::Reopen => {
                 settle!();
@@ -196,19 +213,36 @@ fn exec_model(model: &mut Model, ops: &[Op]) -> Vec<Burst> {
             }
         }
     }
+    // waiters whose owner went away while they were still pending: nobody observes what they are sent
+    let mut cancelled: BTreeSet<u64> = BTreeSet::new();
+    let mut answered: BTreeSet<u64> = BTreeSet::new();
+    macro_rules! close {
+        () => {{
+            for w in &cancelled {
+                cur.wakes.remove(w);
+            }
+            answered.extend(cur.wakes.keys().cloned());
+            bursts.push(std::mem::take(&mut cur));
+        }};
+    }
     for op in ops {
         match op {
             Op::Write { k, v, .. } => absorb(&mut cur, &model.ask(&format!("(store write x{} x{})", k, v))),
             Op::Read { k, .. } => absorb(&mut cur, &model.ask(&format!("(store read x{})", k))),
             Op::Notify { k, w, .. } => absorb(&mut cur, &model.ask(&format!("(store notify x{} {})", k, w))),
-            Op::Barrier => bursts.push(std::mem::take(&mut cur)),
+            Op::Cancel { w } => {
+                if !answered.contains(w) {
+                    cancelled.insert(*w);
+                }
+            }
+            Op::Barrier => close!(),
             Op::Reopen => {
-                bursts.push(std::mem::take(&mut cur));
+                close!();
                 absorb(&mut cur, &model.ask("(store reopen)"));
             }
         }
     }
-    bursts.push(cur);
+    close!();
     bursts
 }
 
@@ -218,6 +252,8 @@ fn exec_reference(ops: &[Op]) -> Vec<Burst> {
     let mut cur = Burst::default();
     let mut map: HashMap<String, String> = HashMap::new();
     let mut parked: Vec<(u64, String)> = Vec::new();
+    let mut answered: BTreeSet<u64> = BTreeSet::new();
+    let mut cancelled: BTreeSet<u64> = BTreeSet::new();
     for op in ops {
         match op {
             Op::Write { k, v, .. } => {
@@ -238,13 +274,26 @@ fn exec_reference(ops: &[Op]) -> Vec<Burst> {
                 }
                 None => parked.push((*w, k.clone())),
             },
-            Op::Barrier => bursts.push(std::mem::take(&mut cur)),
+            Op::Cancel { w } => {
+                // only a waiter that has not been observed answered (at a barrier) can still be abandoned
+                if !answered.contains(w) {
+                    parked.retain(|(pw, _)| pw != w);
+                    cur.wakes.remove(w);
+                    cancelled.insert(*w);
+                }
+            }
+            Op::Barrier => {
+                answered.extend(cur.wakes.keys().cloned());
+                bursts.push(std::mem::take(&mut cur))
+            }
             Op::Reopen => {
+                answered.extend(cur.wakes.keys().cloned());
                 bursts.push(std::mem::take(&mut cur));
                 parked.clear();
             }
         }
     }
+    let _ = &cancelled;
     bursts.push(cur);
     bursts
 }
@@ -332,6 +381,7 @@ fn gen_random(rng: &mut SmallRng, len: usize) -> Vec<Op> {
     let max_burst = if single_step { 1 } else { rng.gen_range(2, 25) };
     let reopens = rng.gen_range(0, 3); // expected number of reopens in this case
     let notify_bias = rng.gen_range(2, 7);
+    let cancels = rng.gen_range(0, 2) == 0;
     let mut ops = Vec::new();
     let mut w = 0u64;
     let mut in_burst = 0;
@@ -344,6 +394,10 @@ fn gen_random(rng: &mut SmallRng, len: usize) -> Vec<Op> {
         if reopens > 0 && rng.gen_range(0, len) < reopens {
             ops.push(Op::Reopen);
             in_burst = 0;
+            continue;
+        }
+        if cancels && w > 0 && rng.gen_range(0, 8) == 0 {
+            ops.push(Op::Cancel { w: rng.gen_range(w.saturating_sub(6), w) + 1 });
             continue;
         }
         match rng.gen_range(0, 12) {
@@ -404,6 +458,19 @@ fn gen_directed(n_waiters: usize, variant: usize) -> Vec<Op> {
             push(&mut ops, Op::Read { h: 2, k: k.clone() });
             push(&mut ops, Op::Notify { h: 2, k: k.clone(), w: 62 });
         }
+        3 => {
+            // abandoned waiters at the head / in the middle of the queue: everyone else is still served
+            if n_waiters >= 1 {
+                push(&mut ops, Op::Cancel { w: 1 });
+            }
+            if n_waiters >= 4 {
+                push(&mut ops, Op::Cancel { w: 3 });
+            }
+            push(&mut ops, Op::Read { h: 1, k: other.clone() });
+            push(&mut ops, Op::Write { h: 2, k: k.clone(), v: "04".into() });
+            push(&mut ops, Op::Write { h: 2, k: other.clone(), v: "05".into() });
+            push(&mut ops, Op::Read { h: 1, k: k.clone() });
+        }
         _ => {
             // write, waiter and overwrite enqueued back to back: the waiter must get the FIRST value
             ops.push(Op::Barrier);
@@ -437,6 +504,7 @@ fn run_case(rt: &tokio::runtime::Runtime, model: Option<&mut Model>, rep: &mut R
             Op::Write { .. } => rep.hit("op.write"),
             Op::Read { .. } => rep.hit("op.read"),
             Op::Notify { .. } => rep.hit("op.notify"),
+            Op::Cancel { .. } => rep.hit("op.cancel"),
             Op::Reopen => {
                 rep.hit("op.reopen");
                 special = true
@@ -504,6 +572,7 @@ fn run_case(rt: &tokio::runtime::Runtime, model: Option<&mut Model>, rep: &mut R
 }
 
 pub fn run(o: &Opts) -> Report {
+    crate::world::install_panic_hook();
     let mut rep = Report::new("store", "C16", &o.tier, o.seed);
     rep.rule = "op lists (write/read/notify_read/reopen from 4 cloned handles, 1-5 overlapping keys incl. the empty key and prefix-related keys, values of 0..300 bytes, 0..8+ waiters per key) executed on the real Store in bursts of forced enqueue order (burst size 1 = exact wake-up step); distinct by the op list; non-trivial when a parked waiter is woken by a later write and the list also has an overwrite or a reopen".into();
     let rt = tokio::runtime::Builder::new_current_thread().enable_all().start_paused(true).build().unwrap();
@@ -522,7 +591,7 @@ pub fn run(o: &Opts) -> Report {
     let mut model = Model::spawn();
     let mut rng = SmallRng::seed_from_u64(o.seed);
     for n in 0..=8usize {
-        for variant in 0..6usize {
+        for variant in 0..8usize {
             if !(n <= 1 || n == 8 || variant % 2 == n % 2) {
                 continue;
             }
